@@ -310,6 +310,20 @@ def run(tier, seed, only=None):
         samples.append({"kind": "S-b perturbation", "header": meta[0][0]["id"], "fix_seed": meta[0][2],
                         "first_events": ev})
 
+    # ------------------------------------------------------------ S-c: arbitrary pop order (leads only, thorough)
+    sc_leads = []
+    if not quick:
+        reqs, meta = [], []
+        for j, b in usable:
+            s = Rng.for_case(seed, "c07-sc-" + j["id"], 0).next()
+            reqs.append(gen_req(j, {"seed": s, "reference": False, "random_pop": 300}))
+            meta.append((j, b))
+        log(f"[C07] S-c arbitrary pop order (leads only): {len(reqs)} runs")
+        for (j, b), r in zip(meta, run_requests(reqs, timeout=300, progress=500)):
+            if r.get("kind") == "ok" and r.get("fp") != b["fp"]:
+                fa, fb = dict(facts_vector(r)), dict(facts_vector(b))
+                sc_leads.append({"header": j["id"], "analyses": sorted(a for a in fa if fa[a] != fb.get(a))})
+
     # ------------------------------------------------------------ generated graphs, S-a
     scratch = make_scratch("c07")
     nprog = int(os.environ.get("BVSIM_C07_NPROG", 600 if quick else 6000))
@@ -320,7 +334,9 @@ def run(tier, seed, only=None):
     exhaustive_programs = 0
     for i in range(nprog):
         prng = Rng.for_case(seed, "c07-graph", i)
-        prog = gen_decls.gen_program(prng, max_entities=8 if quick else 12)
+        # a fifth of the programs are small enough for all their orders to be enumerated
+        small = prng.chance(200)
+        prog = gen_decls.gen_program(prng, max_entities=(4 if small else (8 if quick else 12)))
         ords, exhaustive = gen_decls.orders(prog, prng, max_orders)
         exhaustive_programs += 1 if exhaustive else 0
         progs.append((prog, ords))
@@ -407,6 +423,9 @@ def run(tier, seed, only=None):
         "lookups_probed": st.consults,
         "unconsulted_reference_differences": st.unconsulted_diffs,
         "unconsulted_facts_moved_by_perturbation_runs": st.fact_leads,
+        "s_c_arbitrary_pop_order_leads": {"count": len(sc_leads), "first": sc_leads[:10],
+                                          "note": "never a violation: CannotDerive / UsedTemplateParameters rely on "
+                                                  "successors-first popping for non-allow-listed successors"},
         "perturbation_events_fired": st.events,
         "distinct_visiting_order_vectors": len(st.order_fps),
         "scheduler_steps_simulated": st.pops + st.ref_evals,
